@@ -123,6 +123,44 @@ func TestVerifBounded(t *testing.T) {
 			zzGuard(t, "native ParseFile", src, func() { nparser.ParseFile(cpu, ntoken.NewFileSet(), "a.s", []byte(src)) })
 		})
 	}
+	// statements inside a function body, both syntaxes: every sequence of up to 3 tokens from an alphabet
+	// that holds every declaration and statement keyword (a declaration keyword in statement position is the
+	// classic place where error recovery fails to make progress)
+	wzBody := []string{"类型", "常量", "全局", "函数", "结构", "接口", "字典", "设定", "如果", "或者", "否则", "找辙", "有辙", "没辙", "循环", "迭代", "继续", "跳出", "押后", "返回", "区块", "完毕", "引入", "点", "整型", "x", "1", "=", ":=", ":", "，", "（", "）", "·"}
+	waBody := []string{"type", "const", "global", "func", "struct", "interface", "map", "var", "if", "else", "switch", "case", "default", "for", "range", "continue", "break", "defer", "return", "import", "T", "int", "x", "1", "=", ":=", ":", ",", "(", ")", "{", "}", "."}
+	nBody := 2
+	if os.Getenv("VERIF_TIER") == "thorough" {
+		nBody = 3
+	}
+	cases += zzSeqs(wzBody, nBody, func(src string) {
+		full := "函数·主控:\n\t" + src + "\n完毕\n"
+		zzGuard(t, "FormatCode(.wz)", full, func() { FormatCode("a.wz", full) })
+	})
+	cases += zzSeqs(waBody, nBody, func(src string) {
+		full := "func main {\n\t" + src + "\n}\n"
+		zzGuard(t, "FormatCode(.wa)", full, func() { FormatCode("a.wa", full) })
+	})
+	// WAT text that ends inside a token: every prefix of a module that uses strings with escapes, names,
+	// numbers and block comments
+	watFull := "(module $m (memory 1) (data (i32.const 8) \"abc\\a0\\n\\\"\\u{41}x\") (func $f (export \"e\") (param $p i32) (result i32) local.get $p i32.const 0x1f i32.add (; c ;) ) ;; tail\n)"
+	for i := 0; i <= len(watFull); i++ {
+		cases++
+		src := watFull[:i]
+		zzGuard(t, "wat ParseModule", src, func() { wparser.ParseModule("a.wat", []byte(src)) })
+		zzGuard(t, "GetCodeSyntax", src, func() { GetCodeSyntax("a.txt", []byte(src)) })
+	}
+	// long inputs with an unknown or missing extension (language detection looks at a prefix only): a long
+	// run of comment or filler in front of and behind each short text
+	pads := []string{strings.Repeat("// pad pad pad pad\n", 300), strings.Repeat(";; pad pad pad pad\n", 300), strings.Repeat("# pad pad\n", 500), strings.Repeat("\n", 5000), strings.Repeat("@", 5000)}
+	for _, pad := range pads {
+		for _, body := range []string{"", "func main {}\n", "(module)\n", "函数·主控:\n完毕\n", "addi a0, a0, 1\n", "\"", "/*"} {
+			for _, src := range []string{pad + body, body + pad, pad + body + pad} {
+				cases++
+				zzGuard(t, "GetCodeSyntax", fmt.Sprintf("%d bytes: %.40q...", len(src), src), func() { GetCodeSyntax("a", []byte(src)) })
+				zzGuard(t, "FormatCode(no extension)", fmt.Sprintf("%d bytes: %.40q...", len(src), src), func() { FormatCode("a.txt", src) })
+			}
+		}
+	}
 	// number literals: every literal made of a radix prefix and up to 3 (thorough 4) further characters,
 	// scanned at the start of the text and behind other tokens
 	digits := []string{"0", "1", "7", "8", "9", "a", "f", "_", ".", "e", "p", "+", "x", "b", "o"}
@@ -190,5 +228,5 @@ func TestVerifBounded(t *testing.T) {
 			}
 		}
 	}
-	fmt.Printf("BOUNDED {\"cases\": %d, \"bound\": \"token sequences of length <= %d (.wa: 19 tokens; .wz: 13 tokens, length <= %d), <= %d (WAT, 19 tokens), <= %d (native assembly, 14 tokens, 2 CPUs); plus wider alphabets (.wa 53 tokens, WAT 45 tokens) one token shorter; type checking (LoadProgramFile) for sequences of <= %d tokens; number literals of a radix prefix plus <= %d characters in 3 contexts; index/slice brackets of <= %d tokens; constant declarations A op B and op A over 20 boundary literals x 14 binary / 7 unary operators (7 declared types for some; divisions and shifts also inside a function body), one declaration per package through the parser and the type checker; no panic, each call returns within 10 s\"}\n", cases, nWa, nWa-1, nWat, nAsm, nCheck, nLit, nIdx)
+	fmt.Printf("BOUNDED {\"cases\": %d, \"bound\": \"token sequences of length <= %d (.wa: 19 tokens; .wz: 13 tokens, length <= %d), <= %d (WAT, 19 tokens), <= %d (native assembly, 14 tokens, 2 CPUs); plus wider alphabets (.wa 53 tokens, WAT 45 tokens) one token shorter; type checking (LoadProgramFile) for sequences of <= %d tokens; statement-position sweeps inside a function body (34 .wz / 33 .wa tokens incl. every declaration keyword, length <= 2, thorough 3); every prefix of a WAT module with escapes; long padded inputs without extension; number literals of a radix prefix plus <= %d characters in 3 contexts; index/slice brackets of <= %d tokens; constant declarations A op B and op A over 20 boundary literals x 14 binary / 7 unary operators (7 declared types for some; divisions and shifts also inside a function body), one declaration per package through the parser and the type checker; no panic, each call returns within 10 s\"}\n", cases, nWa, nWa-1, nWat, nAsm, nCheck, nLit, nIdx)
 }
